@@ -49,7 +49,7 @@ def showRes (r : P Res) (n : Nat) : String :=
   | .error e => s!"err|{e.kind.message}|{str ((e.markers n).map fun c => if c == ' ' then '.' else c)}"
 
 /-- prefix-coded source ASTs: `num d d ... ;` `var name idx|-` `paren e` `jump e` `mean e` `prod f tail` `pnil`
-`pcons f tail` `sum 0|1 first tail` `tnil` `tcons 0|1 t tail` -/
+`pcons f tail` `sum 0|1 first tail` `tnil` `tcons 0|1 t tail` `powint b 0|1 d d ... ;` `powexpr b e` `frac n d` -/
 partial def readSrc : List String → Option (Src × List String)
   | "num" :: rest =>
     let ds := rest.takeWhile (· ≠ ";")
@@ -60,6 +60,17 @@ partial def readSrc : List String → Option (Src × List String)
   | "paren" :: rest => (readSrc rest).map fun (e, r) => (.paren e, r)
   | "jump" :: rest => (readSrc rest).map fun (e, r) => (.jump e, r)
   | "mean" :: rest => (readSrc rest).map fun (e, r) => (.mean e, r)
+  | "powint" :: rest =>
+    (readSrc rest).bind fun (b, r) =>
+      match r with
+      | ng :: r' =>
+        let ds := r'.takeWhile (· ≠ ";")
+        match ds.mapM (·.toNat?), r'.dropWhile (· ≠ ";") with
+        | some d, _ :: r'' => some (.powInt b (ng == "1") d, r'')
+        | _, _ => none
+      | [] => none
+  | "powexpr" :: rest => (readSrc rest).bind fun (b, r) => (readSrc r).map fun (e, r') => (.powExpr b e, r')
+  | "frac" :: rest => (readSrc rest).bind fun (n, r) => (readSrc r).map fun (d, r') => (.frac n d, r')
   | "prod" :: rest => (readSrc rest).bind fun (f, r) => (readSrc r).map fun (t, r') => (.prod f t, r')
   | "pnil" :: rest => some (.pnil, rest)
   | "pcons" :: rest => (readSrc rest).bind fun (f, r) => (readSrc r).map fun (t, r') => (.pcons f t, r')
